@@ -62,7 +62,7 @@ class x12xml(object):
         seg_node_id = self._get_node_id(seg_node, parent, seg_data)
         (xname, attrib) = self._get_seg_info(seg_node_id)
         self.writer.push(xname, attrib)
-        for i in range(len(seg_data)):
+        for i in range(min(len(seg_data), seg_node.get_child_count())):
             child_node = seg_node.get_child_node_by_idx(i)
             _ele = seg_data.get('{idx:02d}'.format(idx=i + 1))
             if child_node.usage == 'N' or _ele.is_empty():
@@ -71,7 +71,7 @@ class x12xml(object):
                 (xname, attrib) = self._get_comp_info(seg_node_id)
                 self.writer.push(xname, attrib)
                 comp_data = seg_data.get('{idx:02d}'.format(idx=i + 1))
-                for j in range(len(comp_data)):
+                for j in range(min(len(comp_data), child_node.get_child_count())):
                     subele_node = child_node.get_child_node_by_idx(j)
                     (xname, attrib) = self._get_subele_info(subele_node.id)
                     self.writer.elem(xname, comp_data[j].get_value(), attrib)
@@ -108,7 +108,7 @@ class x12xml(object):
             self.writer.push(xname, attrib)
         (xname, attrib) = self._get_seg_info(seg_node.id)
         self.writer.push(xname, attrib)
-        for i in range(len(seg_data)):
+        for i in range(min(len(seg_data), seg_node.get_child_count())):
             child_node = seg_node.get_child_node_by_idx(i)
             _ele = seg_data.get('{idx:02d}'.format(idx=i + 1))
             if child_node.usage == 'N' or _ele.is_empty():
@@ -117,7 +117,7 @@ class x12xml(object):
                 (xname, attrib) = self._get_comp_info(seg_node.id)
                 self.writer.push(xname, attrib)
                 comp_data = seg_data.get('{idx:02d}'.format(idx=i + 1))
-                for j in range(len(comp_data)):
+                for j in range(min(len(comp_data), child_node.get_child_count())):
                     subele_node = child_node.get_child_node_by_idx(j)
                     (xname, attrib) = self._get_subele_info(subele_node.id)
                     self.writer.elem(xname, comp_data[j].get_value(), attrib)
